@@ -1265,6 +1265,12 @@ def bitmap_causes(tw: Twin, q: list, aN, aA) -> set:
     from dulwich.bitmap import bitmap_to_object_shas
     if q[0] == "reach-commits-shallow" and not q[3]:
         q = ["reach-commits", q[1], q[2]]      # no boundary given: the same query
+    if q[0] == "mof-shallow" and not q[3]:
+        # MissingObjectFinder(shallow=∅): BitmapReachability only answers when no boundary is given (`if shallow:` falls
+        # back to the traversal), so this is the plain `mof` query and the mechanism check below (haves with in-memory
+        # bitmap entries in a pack that does not contain their ancestry) applies unchanged.  With a non-empty
+        # boundary the bitmaps are not consulted and a difference stays unclassified.
+        q = ["mof", q[1], q[2]]
     if aA == ["EXC", "FileNotFoundError"]:
         pd = tw.A.path / "objects" / "pack"
         if any(not p.with_suffix(".bitmap").exists() for p in pd.glob("*.pack")):
